@@ -152,7 +152,9 @@ def run(C, R):
                     too_few = cmp_fact(E, path.facts, 'Lt', ('init', (('P', 'self'), 'permits')), req) == 1
                     fair = const_of(E, path.facts, ('init', (('P', 'self'), 'is_fair')))
                     nonempty = any(isinstance(k, tuple) and k and k[0] == 'qempty' and v == ('eq', 0)
-                                   for k, v in path.facts.items())
+                                   for k, v in path.facts.items()) or \
+                        any(e['k'] == 'qop' and e['op'].startswith('peek') and e.get('node') is not None
+                            for e in path.events)     # (a peek that returned a node: somebody is queued)
                     nonzero = const_of(E, path.facts, ('bin', 'Eq', req, ('const', 0))) == 0 or \
                         (path.facts.get(req) or ('', None))[0] == 'ne'
                     if too_few or (fair == 1 and nonempty and nonzero):
